@@ -264,4 +264,31 @@ def run(ctx):
         return None
     tw.add('clean - - 1', ('summary-with-four-digit-total', expt))
     run_suite(ctx, 'clean.four-digit-total', [tw], known=known, use_model=False)
+    # the library's -trimpath mode (snapshot locations relative to the working directory): the summary still counts and
+    # lists what Clean judged obsolete, with relative directories too
+    tps = []
+    for k, (mode, d) in enumerate([((False, ''), 'snaps'), ((False, 'clean'), 'snaps'), ((True, ''), 'a/b'), ((False, ''), '-'), ((False, 'true'), '=')]):
+        w = World('c20-trimpath-%d' % k)
+        w.add(mode_line(*mode))
+        w.add('trimpath 1')
+        w.add('cfgrel 1 %s - -' % ('=' if d == '=' else '-' if d == '-' else core.hx(d)))
+        dd = {'-': '__snapshots__', '=': '.'}.get(d, d)
+        w.add('fsput %s %s' % (core.hx(dd + '/stale_test.snap'), core.hx(b'\n[TestStale - 1]\nx\n---\n')))
+        w.add('fsput %s %s' % (core.hx(dd + '/zz_verif_harness_test.snap'), core.hx(b'\n[TestOld - 1]\nold\n---\n\n[TestTrim - 1]\nlive\n---\n')))
+        w.add('begin 1 %s' % core.hx(b'TestTrim'))
+        w.add('snap 1 1 %s' % core.hx(b'live'))
+        w.add('end 1')
+        deleting = (not mode[0]) and mode[1] in ('clean', 'true')
+
+        def expt2(line, raw, ww, deleting=deleting):
+            t = line.out.decode('utf-8', 'replace')
+            verb = 'removed' if deleting else 'obsolete'
+            if ('1 snapshot file %s' % verb) not in t or 'stale_test.snap' not in t:
+                return 'one obsolete file: the summary must count and list it, got %r' % t
+            if ('1 snapshot test %s' % verb) not in t or 'TestOld - 1' not in t:
+                return 'one obsolete entry: the summary must count and list it, got %r' % t
+            return None
+        w.add('clean - - 1', ('summary-in-trimpath-mode', expt2))
+        tps.append(w)
+    run_suite(ctx, 'clean.trimpath', tps, known=known, use_model=False)
     findings.report(ctx, 'C20')
